@@ -30,6 +30,7 @@ const (
 
 	naluTypeBitmask   = 0x1F
 	naluRefIdcBitmask = 0x60
+	naluFBitmask      = 0x80
 	fuStartBitmask    = 0x80
 	fuEndBitmask      = 0x40
 
@@ -174,7 +175,8 @@ func (p *H264Payloader) flushParameterSets(mtu uint16, payloads [][]byte) [][]by
 // into the MTU and as FU-A fragments otherwise.
 func packetizeH264Nalu(mtu uint16, nalu []byte, payloads [][]byte) [][]byte {
 	naluType := nalu[0] & naluTypeBitmask
-	naluRefIdc := nalu[0] & naluRefIdcBitmask
+	// F and NRI of the unit, conveyed in the FU indicator when it is fragmented
+	naluRefIdc := nalu[0] & (naluFBitmask | naluRefIdcBitmask)
 
 	// Single NALU
 	if len(nalu) <= int(mtu) {
@@ -331,7 +333,8 @@ func (p *H264Packet) parseBody(payload []byte) ([]byte, error) { //nolint:cyclop
 		p.fuaBuffer = append(p.fuaBuffer, payload[fuaHeaderSize:]...)
 
 		if payload[1]&fuEndBitmask != 0 {
-			naluRefIdc := payload[0] & naluRefIdcBitmask
+			// F and NRI of the fragmented unit are those of the FU indicator
+			naluRefIdc := payload[0] & (naluFBitmask | naluRefIdcBitmask)
 			fragmentedNaluType := payload[1] & naluTypeBitmask
 
 			nalu := append([]byte{}, naluRefIdc|fragmentedNaluType)
